@@ -164,6 +164,9 @@ func W[T any](p *T, site string) *T {
 	return p
 }
 
+// RaceOn reports whether the race detector is active for this execution.
+func (s *Sched) RaceOn() bool { return s.raceOn }
+
 // AtomicAccess records an atomic access on the location (used by the atomic
 // shim so that mixed plain/atomic use of one location is detected).
 func AtomicAccess(p unsafe.Pointer, write bool, site string) {
